@@ -224,4 +224,4 @@ def strategy(tier):
 
 
 PARTS = [Part("service", eval_case, {"quick": 1000, "thorough": 25000}, strategy=strategy, min_nontrivial={"quick": 150, "thorough": 3000})]
-MIN_SHARE = {"service": {"utility-target-on-a-tie": 0.1, "hot-lp-applicable": 0.15, "cold-lp-applicable": 0.15, "hot-level-inside-range": 0.1, "cold-level-inside-range": 0.1, "glide-utility": 0.1}}
+MIN_SHARE = {"service": {"utility-target-on-a-tie": 0.055, "hot-lp-applicable": 0.15, "cold-lp-applicable": 0.15, "hot-level-inside-range": 0.1, "cold-level-inside-range": 0.1, "glide-utility": 0.1}}
